@@ -469,6 +469,7 @@ func (m *sim) die(kind, msg, stack string) {
 		m.stats.Deadlock = msg
 	case "hang":
 		m.stats.Hang = msg
+		m.stats.CrashStack = stack
 	default:
 		m.stats.Crash = msg
 		m.stats.CrashStack = stack
